@@ -3,6 +3,7 @@ package specvm
 import (
 	"encoding/binary"
 	"math/big"
+	"unicode/utf8"
 )
 
 func i8(b []byte) int  { return int(int8(b[0])) }
@@ -151,17 +152,17 @@ func (vm *VM) exec(f *frame, in instr) {
 			fault("ASSERT failed")
 		}
 	case op == ASSERTMSG:
+		// "Pop the top value of the stack as message, then the condition":
+		// the message is read with GetString() = strict UTF-8 decoding of the
+		// span (an ill-formed sequence throws; well-formedness as defined by
+		// the Unicode standard, table 3-7) BEFORE the condition is looked at.
+		// Null.GetString() is null in the reference; whether a Null message
+		// is acceptable is not stated by the opcode description.
 		msg := vm.pop()
-		// GetString(): Null gives null, otherwise the span must be strict
-		// UTF-8. Only 7-bit text is claimed by the model.
 		if msg.T == TAny {
 			vm.undet("ASSERTMSG-null-message")
-		} else {
-			for _, b := range vm.span(msg) {
-				if b >= 0x80 {
-					vm.undet("ASSERTMSG-non-ascii-message")
-				}
-			}
+		} else if !utf8.Valid(vm.span(msg)) {
+			fault("ASSERTMSG: message is not strict UTF-8")
 		}
 		if !vm.popBool() {
 			fault("ASSERTMSG failed")
